@@ -475,12 +475,63 @@ def rule_r5(ctx) -> List[R.Inst]:
     return insts
 
 
+def rule_r6(ctx) -> List[R.Inst]:
+    """conversions are functions of their arguments: no hidden state is written (history-independence)"""
+    M, E = ctx.M, ctx.E
+    rid = "C10.R6"
+    insts = []
+    for q, allowed in ((SNAPPER + ".snap", set()), (SNAP + ".from_offset", set()), (SNAP + ".offset", set()),
+                       (T.TIMINGMAP + ".offsets", {"bpm_changes_offset"}), (T.TIMINGMAP + ".snaps", {"bpm_changes_offset"}),
+                       (T.TIMINGMAP + ".beats", {"bpm_changes_offset"})):
+        fn = M.fn(q)
+        file = M.mods[fn.mod].rel
+        s = E.summary(q)
+        key = ".".join(q.rsplit(".", 2)[-2:])
+        bad = [(root, sites) for root, sites in s.mut.items() if root[1] not in allowed]
+        # an exact-key memo (store under a key that is the argument itself, no rounding) is history-independent
+        def lossy_or_plain(site) -> bool:
+            try:
+                st = ast.parse(site.text).body[0]
+            except SyntaxError:
+                return True
+            if isinstance(st, ast.Assign) and isinstance(st.targets[0], ast.Subscript):
+                k = st.targets[0].slice
+                if isinstance(k, ast.Name):
+                    ds = local_defs(fn.node, k.id)
+                    k = ds[0] if len(ds) == 1 else k
+                return any(isinstance(x, ast.Call) and call_name(x) in ("round", "int", "floor", "trunc", "format", "str")
+                           for x in ast.walk(k)) or any(isinstance(x, ast.BinOp) and isinstance(x.op, (ast.FloorDiv, ast.Mod))
+                                                        for x in ast.walk(k))
+            return True
+        direct = [(root, [st for st in sites if not (st.via or "").startswith("via ") or "setter" in (st.via or "")])
+                  for root, sites in bad]
+        direct = [(r, ss) for r, ss in direct if ss]
+        if bad and not direct:
+            insts.append(R.ok(rid, key, file, fn.node.lineno, idiom="writes state only through the callees checked on their own"))
+            continue
+        bad = [(r, ss) for r, ss in direct if any(lossy_or_plain(x) for x in ss)]
+        if direct and not bad:
+            insts.append(R.ok(rid, key, file, fn.node.lineno, idiom="exact-key memo only (history-independent)"))
+            continue
+        if bad:
+            (p, f), sites = bad[0]
+            insts.append(R.viol(rid, key, file, sites[0].line,
+                                f"{key} writes '{p}.{f}' ({sites[0].text}): its result then depends on the calls made before "
+                                f"(a cache keyed on a rounded value returns a neighbour's answer), so 'nearest', idempotence and the "
+                                f"on-grid round trip no longer hold for every call history", construct=f"{key} mutates {p}.{f}: {sites[0].text}"))
+        else:
+            why = "Mut = {}" if not s.mut else "only the idempotent in-place sort of its own tempo list (C10.R2)"
+            insts.append(R.ok(rid, key, file, fn.node.lineno, idiom=why))
+    return insts
+
+
 SPECS = [
     RuleSpec("C10.R1", rule_r1, 5, "A6", "results are returned in query order (permutation algebra); descending sweep for a decrementing cursor"),
     RuleSpec("C10.R2", rule_r2, 2, "A5", "tempo changes are sorted by the integration key before consecutive pairing"),
     RuleSpec("C10.R3", rule_r3, 3, "A7", "Snap order is lexicographic on (measure, beat): truth table over 9 sign patterns"),
     RuleSpec("C10.R4", rule_r4, 10, "A7", "integration shapes: beat/measure length, position difference at the earlier change's tempo, ms->position split"),
     RuleSpec("C10.R5", rule_r5, 3, "A7", "snapping chooses the nearer neighbour of a sorted table"),
+    RuleSpec("C10.R6", rule_r6, 6, "A3", "snapping and the position/time conversions write no hidden state"),
 ]
 
 META = dict(
